@@ -11,6 +11,7 @@ from __future__ import annotations
 
 import datetime
 import itertools
+import json
 import urllib.parse
 
 from mc import core, crawl, mpd, world as W
@@ -165,7 +166,34 @@ for _n in list(INTEGRATION_VALUES):
         NEEDS[_n] = {'events': 'scte35'}
 
 
+# defaults stored with the stream (POST /stream/<pk>/defaults): both ends overlay them on the built-in defaults, so a value
+# the request sets explicitly - also when it is the built-in default - has to travel in the URL
+SDEF = {'timeShiftBufferDepth': 60, 'leeway': 4, 'ping': {'interval': 150, 'inband': False}, 'playready': {'version': 3.0}}
+SDEF_ASSIGN = [{}, {'depth': '1800'}, {'depth': '30'}, {'leeway': '16'}, {'leeway': '60'}, {'depth': '1800', 'leeway': '16'},
+               {'events': 'ping'}, {'events': 'ping', 'ping__interval': '1000'}, {'events': 'ping', 'ping__inband': '1'},
+               {'events': 'ping', 'ping__interval': '150', 'ping__inband': '0'},
+               {'drm': 'playready'}, {'drm': 'playready', 'playready__version': '2.0'},
+               {'drm': 'playready', 'playready__version': '3.0'}, {'drm': 'playready', 'playready__version': 'none'}]
+SDEF_NAMES = ['depth', 'leeway', 'ping__interval', 'ping__inband', 'playready__version']
+
+
 def integration_item(item):
+    if len(item) == 4:
+        w = W.World.shared()
+        w.begin_item()
+        with w.appctx():
+            sm = w.models.Stream.get(directory='bbb')
+            sm.defaults = json.loads(json.dumps(item[3]))
+            w.models.db.session.commit()
+            w.models.db.session.remove()
+        try:
+            return integration_item_(item[:3], item[3])
+        finally:
+            w.reset()
+    return integration_item_(item, None)
+
+
+def integration_item_(item, sdef):
     template, mode, assign = item
     from dashlive.server.options.repository import OptionsRepository
     from dashlive.server.options.types import OptionUsage
@@ -179,7 +207,8 @@ def integration_item(item):
     acc.count('evaluations')
     acc.count('transitions')
     acc.outcome(('manifest', r.status))
-    rec = {'kind': 'integration', 'template': template, 'mode': mode, 'assign': assign, 'url': url}
+    rec = {'kind': 'integration', 'template': template, 'mode': mode, 'assign': assign, 'url': url, 'sdef': sdef}
+    tag = '|stream-defaults' if sdef else ''
     if r.status != 200:
         return acc
     try:
@@ -189,6 +218,8 @@ def integration_item(item):
     acc.count('traces')
     cgi_map = OptionsRepository.get_cgi_map()
     defaults = OptionsRepository.get_default_options()
+    if sdef:
+        defaults = defaults.clone(**sdef)
     try:
         # what the manifest endpoint accepted: restrictions and unsupported features of the template are applied
         # exactly as RequestHandlerBase.calculate_options() does
@@ -246,7 +277,8 @@ def integration_item(item):
                 acc.violation(sig('media-url-unparsable', type(e).__name__, mtype),
                               f'{url}: the server\'s own option parser rejects the {what} URL {u}: {e}', rec)
                 got = None
-            for name, text in assign.items():
+            names = list(assign) + ([n for n in SDEF_NAMES if n not in assign] if sdef else [])
+            for name in names:
                 opt = cgi_map.get(name)
                 if opt is None or (opt.usage & use) == 0 or got is None:
                     continue
@@ -254,11 +286,8 @@ def integration_item(item):
                     continue
                 src = requested[opt.prefix] if opt.prefix else requested
                 dst = got[opt.prefix] if opt.prefix else got
-                dflt = defaults[opt.prefix] if opt.prefix else defaults
                 want = getattr(src, opt.full_name)
                 have = getattr(dst, opt.full_name)
-                if want == getattr(dflt, opt.full_name):
-                    continue
                 if name == 'start':
                     want = doc.ast
                     if isinstance(have, str):
@@ -274,7 +303,7 @@ def integration_item(item):
                 acc.nontriv((template, mode, tuple(sorted(assign.items())), mtype, what, name))
                 if have != want:
                     present = name in params
-                    acc.violation(sig('value-' + ('differs' if present else 'missing'), name),
+                    acc.violation(sig('value-' + ('differs' if present else 'missing'), name) + tag,
                                   f'{url}: {what} URL of {rep.id} ' +
                                   (f'carries {name}={params.get(name)!r} which parses to {have!r}' if present else
                                    f'does not carry {name}') + f'; the manifest request meant {want!r}: {u}', rec)
@@ -306,6 +335,9 @@ def plan(tier):
                     not ({'start', 'drm', 'events', 'verr', 'depth'} & set(a)):
                 continue
             items.append((t, m, a))
+    for t, m in templates[:(2 if tier == 'quick' else 5)]:
+        for a in SDEF_ASSIGN:
+            items.append((t, m, a, SDEF))
     if tier != 'quick':
         groups = [('start', 'depth', 'leeway'), ('drm', 'playready__version', 'playready__piff', 'playready__la_url', 'bugs'),
                   ('verr', 'aerr', 'terr', 'failures'), ('events', 'ping__interval', 'ping__inband', 'scte35__inband')]
@@ -339,5 +371,6 @@ def replay(record):
     if record.get('kind') == 'unit':
         acc = unit_layer(None)
     else:
-        acc = integration_item((record['template'], record['mode'], record['assign']))
+        item = (record['template'], record['mode'], record['assign'])
+        acc = integration_item(item + (record['sdef'],) if record.get('sdef') else item)
     return [(s, v[0]['what']) for s, v in acc.viol.items()]
